@@ -36,6 +36,20 @@ CHECKS = {
                 text="Every listed failure mode x several timeouts is executed for real through SafeCmdExecution and the wrappers; oracle: no panic, (output, nil) or "
                      "('', error), error when cut off by the deadline, elapsed <= timeout + 1 s (violations land >= 3 s beyond).",
                 note="Wall-clock oracle: grey zone (timeout+1.0, timeout+2.5) s is retried, then inconclusive. Trusted base: harness, /bin/sh, sleep."),
+    "C06": dict(level="exploration", ref="4 (C06)", technique="runtime monitor: reference-model comparison (float64 / exact-integer / independent PID model) on generated curves and sensor states",
+                text="The real curve objects are evaluated over scripted sensors on a virtual clock; every value is compared with an independently written reference "
+                     "(interpolation with explicit tolerance, exact integer aggregates checked at every node of nested function trees, a re-implementation of the documented PID loop) "
+                     "and against the 0..255 range, over boundary and extreme float64 inputs."),
+    "C07": dict(level="exploration", ref="3 (C07)", technique="runtime monitor: pairwise monotonicity oracle over dense temperature sweeps and controller sweeps",
+                text="Dense upward temperature sweeps (1 m-degree near boundaries) through real linear and monotone-preserving function curves, and curve-value sweeps through "
+                     "the real controller with the direct algorithm; the oracle is 'output never decreases along the sweep', which covers every grid pair by transitivity."),
+    "C13": dict(level="exploration", ref="3 (C13)", technique="runtime monitor: reference-model comparison on real HwMonFan objects, exhaustive over small curves plus random attach sequences",
+                text="Limits reported by the real HwMonFan getters after AttachFanRpmCurveData are compared with a reference computed from the data, for every combination "
+                     "of configured limits and for attach sequences with different data, nil and empty data."),
+    "C14": dict(level="fault_enumeration", ref="5 (C14)", technique="runtime monitors: model-based history checking, strace-injected SIGKILL crash-point enumeration, porcupine linearizability checking of recorded histories",
+                text="Model-based sequential histories with full re-read after every step; enumeration of every pwrite64/fdatasync/ftruncate crash point of generated save/delete scripts "
+                     "(worker killed by strace injection, fresh process reads back); concurrent goroutine + process clients incl. killed ones checked with porcupine.",
+                note="Trusted base: harness, strace (injection at syscall entry), porcupine v1.3.0, tmpfs semantics of /dev/shm; process kill only (no power loss)."),
 }
 
 
